@@ -165,8 +165,17 @@ def run(rep):
         rep.lost("OPT-FLAG", "OPT-FLAG/anchor", "Rule::optimise")
     else:
         s = show(ro.body)
-        rep.check(s.startswith("{if self.optimised {return self}; "), "OPT-FLAG", "OPT-FLAG/noop-when-optimised", ro.sp, "a rule marked optimised is returned unchanged (so a reloaded optimised rule is not optimised twice)", s[:60])
-        rep.check(s.endswith("self.optimised = true; self}"), "OPT-FLAG", "OPT-FLAG/sets-flag", ro.sp, "optimise marks the rule", s[-40:])
+        import optflow
+        of = optflow.analyse(F)
+        if of["error"]:
+            rep.lost("OPT-FLAG", "OPT-FLAG/flow", "Rule::optimise inside the interpreted subset", of["error"][:200])
+        else:
+            bad_noop = [str(sw) for (sw, al), run in of["runs"].items() if al and any(run["fields"].get(k) != v for k, v in optflow.expected(sw, True).items())]
+            rep.check(not bad_noop, "OPT-FLAG", "OPT-FLAG/noop-when-optimised", ro.sp, "a rule marked optimised is returned unchanged whatever the switches (so a reloaded optimised rule is not optimised twice)", "; ".join(bad_noop[:3]))
+            bad_flag = [str(sw) for (sw, al), run in of["runs"].items() if not al and run["fields"].get("optimised") != ("lit", True)]
+            rep.check(not bad_flag, "OPT-FLAG", "OPT-FLAG/sets-flag", ro.sp, "optimise marks the rule for every switch set", "; ".join(bad_flag[:3]))
+            bad_raw = [str(sw) for (sw, al), run in of["runs"].items() if any(run["fields"].get(k) != ("init", k) for k in ("detection.expression_raw", "detection.identifiers_raw"))]
+            rep.check(not bad_raw, "OPT-FLAG", "OPT-FLAG/raw-parts-kept", ro.sp, "the raw condition and raw identifiers of the returned rule are those of the input for every switch set", "; ".join(bad_raw[:3]))
     writes = []
     for name, f in F.fns.items():
         if f.thir is None:
